@@ -1,6 +1,7 @@
 """C13 Webentity hierarchy queries are exact; pruning never hides a child."""
 from ..core import Prop
 from ..spec import parents_of_webentity, children_of_webentity, prefixes_of, stems_of
+from .. import observe as ob
 from .c04 import check_prefix_enumeration
 
 
@@ -39,8 +40,8 @@ class C13(Prop):
         for w, ps in sorted(wes.items()):
             ep = parents_of_webentity(led.prefix_map, w)
             ec = children_of_webentity(led.prefix_map, w)
-            gp = case.call("get_webentity_parent_webentities", t.get_webentity_parent_webentities, w, list(ps))
-            gc = case.call("get_webentity_child_webentities", t.get_webentity_child_webentities, w, list(ps))
+            gp = case.call("get_webentity_parent_webentities", t.get_webentity_parent_webentities, w, ob.args(ps))
+            gc = case.call("get_webentity_child_webentities", t.get_webentity_child_webentities, w, ob.args(ps))
             if len(gp) != len(set(gp)) or set(gp) != ep:
                 ctx.fail("parents", "parents of webentity %r (prefixes %r): got %r, expected %r" % (w, ps[:3], sorted(gp), sorted(ep)), case)
             if len(gc) != len(set(gc)) or set(gc) != ec:
@@ -55,5 +56,18 @@ class C13(Prop):
     def nontrivial(self, case):
         return "deep-child-on-pre-existing-path" in case.flags
 
+
+    # scale probe (tv/scale.py): 320 webentities (ids beyond 256), 1280+ pages, judged once by this property's oracle
+    def extra_checks(self, ctx, tier, seed, shard, nshards):
+        if shard != 2 % nshards:
+            return
+        from ..scale import build
+        case = build(self, ctx, 320 if tier == "quick" else 700)
+        try:
+            self.after_op(case, ("links", []), None, {"closure": set(), "map": {}})
+            ctx.extra["scale_probe_pages"] += len(case.led.pages)
+            ctx.extra["scale_probe_webentities"] += len(case.led.webentities())
+        finally:
+            case.abort()
 
 PROP = C13()
